@@ -1,3 +1,135 @@
-(* C11 — placeholder while the proofs are being written *)
+(* C11 — The ground-program builder preserves Boolean meaning.
+   Only statements; proofs are in Proofs*.v.
+
+   Setting (ModelBuilder.v).  A history is a list of builder calls whose
+   arguments are *reference keys*: the reference builder appends one node per
+   add_atom/add_and/add_or call and never optimises ([rg], node n = n-th such
+   call); the model of LogicFormula is run side by side and [rmap] records the
+   key it returned for reference node n.  [run] fails closed: it is [Ok] only if
+   every key passed in was returned earlier, add_disjunct is only used on keys
+   created with readonly=False (or TRUE), and no call raised.
+   A valuation v gives every node index a truth value; [sol a g v] says that v
+   satisfies every node equation of graph g under atom assignment a (a supported
+   valuation; for an acyclic graph there is exactly one, for a positive cycle
+   the least one is the least fixpoint).  [pull rmap v] reads v through the
+   returned keys: reference node n gets the value of the key returned for it. *)
 From Coq Require Import ZArith List Bool.
-From PL.C11 Require Import ModelBuilder.
+From PL.C11 Require Import ModelBuilder ProofsBasics ProofsBuilder ProofsInv ProofsStep ProofsSem.
+Import ListNotations.
+Open Scope Z_scope.
+
+(* Soundness, for every option vector (auto_compact, keep_order, keep_duplicates,
+   keep_all, avoid_name_clash, max_arity), every probability class of the atoms and
+   every history (add_atom, add_and, add_or readonly/mutable/placeholder with
+   per-call compact flag and names, add_disjunct incl. max_arity splitting,
+   negate, add_name), no bound: whatever truth values the builder's graph
+   supports, the returned keys carry values that satisfy the equations of the
+   unoptimised graph the calls describe.  Constant folding, duplicate and
+   complement elimination, single-child collapse (incl. the name-clash branch),
+   node sharing through the index tables and later updates of mutable nodes
+   never break this. *)
+Theorem C11_builder_sound : forall o pcl ops r, run o pcl init ops = Ok r ->
+  forall a v, sol a (nodes (impl r)) v -> sol a (rg r) (pull (rmap r) v).
+Proof. exact builder_sound. Qed.
+Print Assumptions C11_builder_sound.
+
+(* Keys returned earlier are never renumbered and keep denoting their
+   reference node after any continuation of the history. *)
+Theorem C11_keys_stable : forall o pcl ops1 ops2 r1 r2,
+  run o pcl init ops1 = Ok r1 -> run o pcl r1 ops2 = Ok r2 ->
+  exists ext, rmap r2 = rmap r1 ++ ext /\
+    forall a v, sol a (nodes (impl r2)) v -> sol a (rg r2) (pull (rmap r1 ++ ext) v).
+Proof. exact keys_stable. Qed.
+Print Assumptions C11_keys_stable.
+
+(* Acyclic histories (add_disjunct never closes a cycle): the reference
+   equations have exactly one solution w -- the Boolean functions of the atoms
+   that the calls describe -- and every returned key has exactly that value. *)
+Theorem C11_meaning_acyclic : forall o pcl ops r, run o pcl init ops = Ok r -> acyclic (rg r) ->
+  forall a v w, sol a (nodes (impl r)) v -> sol a (rg r) w ->
+  forall i ik, nth_error (rmap r) i = Some ik -> vkey v ik = w (Z.of_nat i + 1).
+Proof. exact meaning_acyclic. Qed.
+Print Assumptions C11_meaning_acyclic.
+
+Theorem C11_acyclic_meaning_exists : forall a g, acyclic g -> exists w, sol a g w.
+Proof. exact acyclic_has_sol. Qed.
+Print Assumptions C11_acyclic_meaning_exists.
+
+Theorem C11_acyclic_meaning_unique : forall a g w1 w2, acyclic g -> sol a g w1 -> sol a g w2 ->
+  forall i nd, nth_error g i = Some nd -> w1 (Z.of_nat i + 1) = w2 (Z.of_nat i + 1).
+Proof. exact acyclic_unique. Qed.
+Print Assumptions C11_acyclic_meaning_unique.
+
+(* The invariant behind the theorems (ProofsInv.v: index tables point at live
+   read-only nodes with exactly the indexed children; mutable nodes are owned by
+   one reference node, are never indexed and are the only nodes whose content
+   changes) holds in every reachable state. *)
+Theorem C11_invariant : forall o pcl ops r, run o pcl init ops = Ok r -> Inv pcl r.
+Proof. intros o pcl ops r H. exact (proj1 (run_inv o pcl ops init r (Inv_init pcl) H)). Qed.
+Print Assumptions C11_invariant.
+
+(* Operation level: _add_compound on any state whose index tables are consistent. *)
+Theorem C11_add_compound_sound : forall pcl o s im kd content ro nm ph cp s' k,
+  idx_ok pcl s im -> im_ok s im ->
+  add_compound o s kd content ro nm ph cp = Some (s', k) ->
+  idx_ok pcl s' im /\ grows s s' /\
+  ((ro = true \/ kd = KConj) -> forall a v, rsol a (sh s') im v -> vkey v k = ev kd v content) /\
+  (ro = false -> kd = KDisj -> mut_result s s' content k).
+Proof. exact add_compound_sound. Qed.
+Print Assumptions C11_add_compound_sound.
+
+(* negate *)
+Theorem C11_negate : forall v k, vkey v (negate k) = negb (vkey v k).
+Proof. exact vkey_negate. Qed.
+Print Assumptions C11_negate.
+
+(* NOT proved (see notes/C11.md):
+   C11_builder_complete : forall ... run o pcl init ops = Ok r ->
+     forall a w, sol a (rg r) w -> exists v, sol a (nodes (impl r)) v /\ forall i in range, pull (rmap r) v i = w i
+   (every supported valuation of the reference graph is realised by the builder's graph), and with it
+   C11_builder_sound_lfp : lfp_val a (nodes (impl r)) (key i) = lfp_val a (rg r) (Some i) for stratified cyclic
+   histories.  For cyclic histories the proved statement is C11_builder_sound (supported valuations), the
+   least-fixpoint reading is covered by the tie only. *)
+
+(* Non-vacuity: a history with a mutable disjunction m = or() that is closed into a
+   cycle (c = and(m, a, TRUE, m); add_disjunct(m, c); add_disjunct(m, b)), a collapsed
+   single-child or, a complementary pair, a shared conjunction.  The run is Ok, the
+   builder's graph has 5 nodes for 8 reference nodes, and the least-fixpoint values
+   of all returned keys agree with the reference graph for all four assignments. *)
+Definition ex_opts := mkOpts true false false false false 0.
+Definition ex_pcl (_ : Z) := PProb.
+Definition ex_ops :=
+  [OAtom 0 None; OAtom 1 None; OOr [] true true None None; OAnd [Some 3; Some 1; Some 0; Some 3] None None;
+   ODisjunct (Some 3) (Some 4); ODisjunct (Some 3) (Some 2); OOr [Some 4] true false None None;
+   OOr [Some 2; Some (-2)] true false None None; OAnd [Some 3; Some 1] None None;
+   OOr [Some 5; Some (-1); None] true false None None].
+Definition ex_assigns : list (Z -> bool) :=
+  map (fun p : bool * bool => fun id : Z => if id =? 0 then fst p else snd p)
+      [(false, false); (false, true); (true, false); (true, true)].
+
+Example C11_example_cyclic :
+  match run ex_opts ex_pcl init ex_ops with
+  | Ok r => Some (rmap r, length (nodes (impl r)), imut r,
+                  map (fun a => map (fun k => lfp_val a (nodes (impl r)) k) (rmap r)) ex_assigns,
+                  map (fun a => map (fun i => lfp_val a (rg r) (Some (Z.of_nat i))) (seq 1 (length (rg r)))) ex_assigns)
+  | _ => None
+  end
+  = Some ([Some 1; Some 2; Some 3; Some 4; Some 4; Some 0; Some 4; Some 5], 5%nat, [3],
+          [[false; false; false; false; false; true; false; true];
+           [false; true; true; false; false; true; false; true];
+           [true; false; false; false; false; true; false; false];
+           [true; true; true; true; true; true; true; true]],
+          [[false; false; false; false; false; true; false; true];
+           [false; true; true; false; false; true; false; true];
+           [true; false; false; false; false; true; false; false];
+           [true; true; true; true; true; true; true; true]]).
+Proof. vm_compute. reflexivity. Qed.
+
+(* the hypotheses of C11_meaning_acyclic are satisfiable by a non-trivial history *)
+Example C11_example_acyclic :
+  match run ex_opts ex_pcl init [OAtom 0 None; OAtom 1 None; OAnd [Some 1; Some (-2); Some 1] None None;
+                                 OOr [Some 3; Some 2; None] true false None None; OOr [Some 4] true false None None] with
+  | Ok r => Some (rmap r, length (nodes (impl r)))
+  | _ => None
+  end = Some ([Some 1; Some 2; Some 3; Some 4; Some 4], 4%nat).
+Proof. vm_compute. reflexivity. Qed.
